@@ -34,20 +34,48 @@ def _load():
 
 
 def _task(t):
-    """Ground mode first (counter-models in milliseconds), then the unbounded proof attempt; an
-    obligation already refuted by a ground counter-model is not re-solved with quantifiers."""
-    qual, variant, pid, timeout_ms, k = t
+    """One (function, mode, subtree) unit of work."""
+    qual, variant, pid, timeout_ms, k, mode, root, budget, skip = t
     try:
         _load()
         from pyvc.run import verify_one
-        g = verify_one(qual, mode="g", timeout_ms=timeout_ms, variant=variant, k=k, only_props=[pid])
-        skip = {(o["name"], o["clause"]) for o in g["obligations"] if o["status"] == "refuted"}
-        q = verify_one(qual, mode="q", timeout_ms=timeout_ms, variant=variant, k=k, skip=skip, only_props=[pid])
-        q["ground"] = g
-        return q
+        return verify_one(qual, mode=mode, timeout_ms=timeout_ms, variant=variant, k=k, only_props=[pid],
+                          root=root, budget=budget, skip=skip)
     except Exception as e:  # noqa
-        return dict(qual=qual, mode="q", obligations=[], error="checker-error: %s\n%s" % (e, traceback.format_exc()),
-                    secs=0.0, stats={}, variant=variant, ground=None)
+        return dict(qual=qual, mode=mode, obligations=[], error="checker-error: %s\n%s" % (e, traceback.format_exc()),
+                    secs=0.0, stats={}, variant=variant, leftover=[], root=root)
+
+
+def explore(pool, tasks, pid, timeout_ms, k, mode, skipmap=None, budget=10):
+    """Run every function in `mode`; a function with many paths is split into disjoint subtrees of
+    its decision tree that are handed to other workers (obligations are emitted once per path)."""
+    import queue
+    done = queue.Queue()
+    outstanding = 0
+    merged = {}
+
+    def submit(q, v, root, bud):
+        nonlocal outstanding
+        key = (q, json.dumps(v, sort_keys=True))
+        skip = list((skipmap or {}).get(key, ()))
+        outstanding += 1
+        pool.apply_async(_task, ((q, v, pid, timeout_ms, k, mode, root, bud, skip),), callback=done.put,
+                         error_callback=lambda e: done.put(dict(qual=q, variant=v, obligations=[], error="checker-error: %s" % e, stats={}, leftover=[], secs=0.0)))
+
+    for q, v in tasks:
+        submit(q, v, None, budget)
+    while outstanding:
+        r = done.get()
+        outstanding -= 1
+        key = (r["qual"], json.dumps(r["variant"], sort_keys=True))
+        m = merged.setdefault(key, dict(qual=r["qual"], variant=r["variant"], obligations=[], error=None, secs=0.0, stats={}))
+        m["obligations"].extend(r["obligations"])
+        m["secs"] += r.get("secs", 0.0)
+        if r.get("error") and not m["error"]:
+            m["error"] = r["error"]
+        for root in r.get("leftover") or []:
+            submit(r["qual"], r["variant"], root, 40)
+    return merged
 
 
 def _bounded_task(t):
@@ -146,17 +174,16 @@ def run_property(pid, tier="quick", seed=0, extra=None):
     results = {}
     errors = []
     solver_secs = 0.0
-    gres = {}
     with mp.Pool(16) as pool:
         # bounded stand-in: the same contracts evaluated on the real code over small inputs
         blimit = 30 if tier == "quick" else 400
         btasks = [(q, v, [pid], blimit, seed) for q, v in tasks]
         basync = pool.map_async(_bounded_task, btasks, chunksize=1)
-        for r in pool.imap_unordered(_task, [(q, v, pid, timeout_ms, kq if tier == "quick" else 5) for q, v in tasks]):
-            key = (r["qual"], json.dumps(r["variant"], sort_keys=True))
-            results[key] = r
-            if r.get("ground"):
-                gres[key] = r["ground"]
+        # ground mode first (counter-models in milliseconds); an obligation refuted there is not
+        # re-solved with quantifiers
+        gres = explore(pool, tasks, pid, timeout_ms, kq if tier == "quick" else 5, "g")
+        skipmap = {key: {(o["name"], o["clause"]) for o in r["obligations"] if o["status"] == "refuted"} for key, r in gres.items()}
+        results = explore(pool, tasks, pid, timeout_ms, kq, "q", skipmap)
         bres = basync.get()
 
     obligations, discharged, undecided, refuted = [], [], [], []
